@@ -100,6 +100,12 @@ class CircuitOpSerializer(OpSerializer):
             op.repetition_ids is not None
             and op.repetition_ids != circuit_operation.default_repetition_ids(op.repetitions)
         ):
+            if isinstance(op.repetitions, (int, np.integer)) and op.repetitions < 0:
+                # The message holds either a count or a list of ids; the list cannot carry the sign.
+                raise ValueError(
+                    'Cannot serialize negative repetitions together with custom repetition ids: '
+                    f'repetitions={op.repetitions}, repetition_ids={op.repetition_ids}'
+                )
             for rep_id in op.repetition_ids:
                 msg.repetition_specification.repetition_ids.ids.append(rep_id)
         elif isinstance(op.repetitions, (int, np.integer)):
